@@ -325,6 +325,88 @@ def run(chk, repo):
         nret += _check_op(chk, mod, fn, "ZFilter." + name, SPECS[name], SPEC_TXT[name], ("filter", "scalar"))
     fn = repo.find(LF, "ZFilter.__pow__")
     nret += _check_op(chk, mod, fn, "ZFilter.__pow__", SPECS["__pow__"], SPEC_TXT["__pow__"], ("scalar",))
+    # a Poly with several terms cannot be raised to a negative power (Poly.__pow__ silently returns the polynomial itself):
+    # on every return path that raises numpoly / denpoly to `other`, the guards must exclude
+    # "other < 0 and that polynomial has two or more terms"
+    chk.rule("C05.pow-domain", "ZFilter.__pow__: a path computing self.numpoly ** other or self.denpoly ** other is reached "
+                               "only when other >= 0 or that polynomial has fewer than two terms (decided over all truth "
+                               "assignments of the guard atoms)")
+    import itertools as _it
+
+    def atom(e):
+        if isinstance(e, ast.Compare) and len(e.ops) == 1:
+            l, r, op = unparse(e.left), unparse(e.comparators[0]), type(e.ops[0])
+            if l == "other" and r == "0" and op is ast.Lt:
+                return ("N", True)
+            if l == "other" and r == "0" and op is ast.GtE:
+                return ("N", False)
+            if l == "0" and r == "other" and op is ast.Gt:
+                return ("N", True)
+            for poly, nm in (("self.numpoly", "A"), ("self.denpoly", "B"), ("self.numerator", "A"), ("self.denominator", "B"),
+                             ("self.numdict", "A"), ("self.dendict", "B"), ("self.numlist", None), ("self.denlist", None)):
+                if l == "len(%s)" % poly and nm:
+                    if (op is ast.GtE and r == "2") or (op is ast.Gt and r == "1"):
+                        return (nm, True)
+                    if (op is ast.Lt and r == "2") or (op is ast.LtE and r == "1"):
+                        return (nm, False)
+        return None
+
+    def truth(e, asg, free):
+        if isinstance(e, ast.BoolOp):
+            vals = [truth(v, asg, free) for v in e.values]
+            return all(vals) if isinstance(e.op, ast.And) else any(vals)
+        if isinstance(e, ast.UnaryOp) and isinstance(e.op, ast.Not):
+            return not truth(e.operand, asg, free)
+        a = atom(e)
+        if a is not None:
+            return asg[a[0]] == a[1]
+        k = unparse(e)
+        if k not in free:
+            free[k] = len(free)
+        return asg["free"][free[k]]
+    try:
+        ppaths = enumerate_paths(fn.body, _mk_env("scalar"), _oracle("scalar"), _assign(mod))
+    except (PathLimit, Inconclusive) as ex:
+        raise AnalysisError("ZFilter.__pow__: body outside the loop-free fragment (%s)" % ex)
+    npow = 0
+    for kind, st, penv, trail in ppaths:
+        if kind != "return":
+            continue
+        raised = set()
+        for n in ast.walk(st.value):
+            if isinstance(n, ast.BinOp) and isinstance(n.op, ast.Pow) and "other" in unparse(n.right):
+                base = unparse(n.left)
+                if base in ("self.numpoly",):
+                    raised.add("A")
+                elif base in ("self.denpoly",):
+                    raised.add("B")
+        if not raised:
+            continue
+        npow += 1
+        free = {}
+        # discover free atoms first
+        for t, tk in trail:
+            try:
+                truth(t, {"N": True, "A": True, "B": True, "free": [False] * 16}, free)
+            except IndexError:
+                raise AnalysisError("ZFilter.__pow__: too many guard atoms")
+        witness = None
+        for N, A, B in _it.product((True, False), repeat=3):
+            for fr in _it.product((True, False), repeat=len(free)):
+                asg = {"N": N, "A": A, "B": B, "free": list(fr) + [False] * 16}
+                if all(truth(t, asg, free) == tk for t, tk in trail):
+                    if N and ((A and "A" in raised) or (B and "B" in raised)):
+                        witness = (N, A, B)
+                        break
+            if witness:
+                break
+        guard = " and ".join(("" if tk else "not ") + "(" + short(t, 60) + ")" for t, tk in trail) or "always"
+        chk.decide(witness is None, "C05.pow-domain", W("ZFilter.__pow__"), "[%s] %s" % (guard, short(st)),
+                   why="reachable with other < 0 and %s: Poly ** negative is only defined for single-term polynomials, the "
+                       "result is not the reciprocal power" % (
+                           "several numerator terms" if witness and witness[1] and "A" in raised else "several denominator terms"),
+                   node=st)
+    chk.floor("C05.pow-domain", npow, 1, "paths raising a polynomial to `other`")
     # metaclass templates
     meta = repo.find(LF, "ZFilterMeta")
     ops_decl = repo.find_assign(LF, "__operators__", scope="ZFilterMeta")
